@@ -7,6 +7,7 @@
 
 mod chains;
 mod dens;
+mod par;
 mod recorder;
 mod report;
 mod sched;
@@ -23,6 +24,10 @@ mod c06;
 mod c07;
 mod c08;
 mod c09;
+mod c10;
+mod c11;
+mod c12;
+mod c13;
 mod c16;
 mod c17;
 mod c18;
@@ -90,6 +95,10 @@ fn main() {
         "c07" => c07::run(&args, &mut report),
         "c08" => c08::run(&args, &mut report),
         "c09" => c09::run(&args, &mut report),
+        "c10" => c10::run(&args, &mut report),
+        "c11" => c11::run(&args, &mut report),
+        "c12" => c12::run(&args, &mut report),
+        "c13" => c13::run(&args, &mut report),
         "c16" => c16::run(&args, &mut report),
         "c17" => c17::run(&args, &mut report),
         "c18" => c18::run(&args, &mut report),
